@@ -276,7 +276,7 @@ PROPS["C10"] = dict(
           "Oracle 2 (non-interference, metamorphic): a twin instance receives only the calls the model accepts; the instance that additionally received the rejected calls must emit the same messages and callbacks and end with the same End result. Both are driven to End and re-checked after End. "
           "Non-trivial = the sequence contains a call rejected for a state or index reason while running; distinct by draw-record hash."),
     assumptions=["Start after End and Start with a too-short seed are outside the quantifier (documentation asks for a new instance per run)"],
-    jobs=[J("TestC10_StateMachine", 2000, 50000, shards=16)],
+    jobs=[J("TestC10_StateMachine", 4000, 50000, shards=16)],
 )
 
 PROPS["C09"] = dict(
